@@ -43,16 +43,14 @@ def cases(tier):
         cs += [mk(12, 10, 10, -113, qmax=2), mk(8, 6, 6, 7, heap=True, qmax=2), mk(12, 14, 4, -350, qmax=3),
                mk(6, 5, 5, -113, qmax=3), mk(6, 5, 5, -113, heap=True, qmax=3)]
     else:
-        cs += [mk(12, 14, 14, -113, timeout=3000), mk(12, 14, 14, 7, heap=True, timeout=3000),
-               mk(255, 130, 140, -113, timeout=6000), mk(255, 258, 4, -113, timeout=6000),
-               mk(255, 20, 250, 7, heap=True, timeout=6000)]
+        cs += [mk(12, 14, 14, -113, timeout=3000), mk(12, 12, 12, 7, heap=True, timeout=6000, qmax=2), mk(20, 18, 8, -113, timeout=6000, qmax=2),
+               mk(20, 6, 20, -350, timeout=6000, qmax=2), mk(6, 5, 5, -113, qmax=3), mk(6, 5, 5, -113, heap=True, qmax=3), mk(8, 6, 6, 7, heap=True, qmax=2)]
     return cs
 
 
 META = dict(
-    bounds=dict(limit="12 (scaled) in quick; 12 and the real 255 in thorough", alphabet="description {x,\\\"}, text {y,;,\\\"}"),
-    outside=["texts and descriptions longer than the per-case bounds", "in the quick tier the 255 limit itself (checked scaled to 12: "
-             "the code is parametric in the macro)", "characters other than the representatives (only '\"' is treated specially by the code)"],
+    bounds=dict(limit="scaled to 6/8/12 in quick and 6/8/12/20 in thorough (the macro is overridden at compile time, same code); the real 255 needs more than 12 GB and is not claimed", alphabet="description {x,\\\"}, text {y,;,\\\"}"),
+    outside=["texts and descriptions longer than the per-case bounds", "the value 255 of the limit itself (checked scaled: the code is parametric in the macro)", "characters other than the representatives (only '\"' is treated specially by the code)"],
     assumptions=["write callback accepts all bytes"],
     explanation="bounded model checking of the real SCPI_ResultError with symbolic description/text against a 488.2 string reader",
 )
